@@ -58,12 +58,12 @@ macro_rules! int_type {
                     c.rep.evaluations += 2;
                     let m = int_prefix(&full, $signed, <$T>::MIN as i128, <$T>::MAX as u128);
                     for (which, r) in [
-                        ("Parser::parse", catch(|| Parser::new(&full).$method().map(|(v, p)| (v.to_string(), loc_str(&full, p.remainder()), p.remainder().len(), p.start_offset(), p.end_offset())).map_err(|e| (format!("{:?}", e.kind()), e.offset())))),
-                        ("parse_with!", catch(|| konst::parse_with!(Parser::new(&full), $T).map(|(v, p)| (v.to_string(), loc_str(&full, p.remainder()), p.remainder().len(), p.start_offset(), p.end_offset())).map_err(|e| (format!("{:?}", e.kind()), e.offset())))),
+                        ("Parser::parse", catch(|| Parser::new(&full).$method().map(|(v, p)| (v.to_string(), loc_str(&full, p.remainder()), p.remainder().len())).map_err(|_| ()))),
+                        ("parse_with!", catch(|| konst::parse_with!(Parser::new(&full), $T).map(|(v, p)| (v.to_string(), loc_str(&full, p.remainder()), p.remainder().len())).map_err(|_| ()))),
                     ] {
                         let exp = match &m {
-                            Some((v, n)) => Ok((v.clone(), if *n == full.len() { Loc::Empty } else { Loc::At(*n, full.len() - n) }, full.len() - n, *n, full.len())),
-                            None => Err(("ParseInteger".to_string(), 0usize)),
+                            Some((v, n)) => Ok((v.clone(), if *n == full.len() { Loc::Empty } else { Loc::At(*n, full.len() - n) }, full.len() - n)),
+                            None => Err(()),
                         };
                         match r {
                             Ok(r) if r == exp => {}
@@ -103,8 +103,8 @@ fn t_bool(rep: &mut Report, inputs: &[String], suffixes: &[&str]) {
         for suf in suffixes {
             let full = format!("{s}{suf}");
             c.rep.transitions += 1;
-            let exp = if full.starts_with("true") { Ok(("true".to_string(), 4usize)) } else if full.starts_with("false") { Ok(("false".to_string(), 5)) } else { Err(("ParseBool".to_string(), 0usize)) };
-            let got = catch(|| Parser::new(&full).parse_bool().map(|(v, p)| (v.to_string(), p.start_offset())).map_err(|e| (format!("{:?}", e.kind()), e.offset())));
+            let exp = if full.starts_with("true") { Ok(("true".to_string(), 4usize)) } else if full.starts_with("false") { Ok(("false".to_string(), 5)) } else { Err(()) };
+            let got = catch(|| Parser::new(&full).parse_bool().map(|(v, p)| (v.to_string(), full.len() - p.remainder().len())).map_err(|_| ()));
             match got {
                 Ok(g) if g == exp => {
                     // remainder by address
@@ -217,7 +217,7 @@ pub fn run(tier: Tier, rep: &mut Report) -> (String, String) {
     t_bool(rep, &words, suffixes);
     rep.traces = rep.transitions;
     (
-        "state = one input string (x suffix for prefix parsing); transition = primitive::parse_T (whole string), Parser::parse_T and parse_with!(parser, T) (prefix); oracle: whole string = str::parse::<T> unless the string starts with '+'; prefix = optional '-' (signed only) + longest ASCII-digit run, value by checked 128-bit accumulation, failure without consuming (error kind ParseInteger/ParseBool, offset 0) if no digit or out of range, otherwise remainder by address and offsets advanced by the consumed length; non-trivial = a string containing a digit that must be rejected".into(),
+        "state = one input string (x suffix for prefix parsing); transition = primitive::parse_T (whole string), Parser::parse_T and parse_with!(parser, T) (prefix); oracle: whole string = str::parse::<T> unless the string starts with '+'; prefix = optional '-' (signed only) + longest ASCII-digit run, value by checked 128-bit accumulation, failure (an Err and no parser) if no digit or out of range, otherwise the unconsumed rest by address (offset bookkeeping belongs to C13); non-trivial = a string containing a digit that must be rejected".into(),
         format!("12 integer types + bool; all strings of <= {n} atoms over [0,1,2,9,-,+,a,' ',٣] ({}) x suffixes {suffixes:?}; every value from i16::MIN-3 to u16::MAX+3 (canonical; decorated with leading zeros, trailing x, leading + for |v|<300 and every 97th); per type MAX-2..MAX+3 with signs, 0/1/2/40 leading zeros, one extra digit; bool words within edit distance 1 of true/false ({})", small.len(), words.len()),
     )
 }
